@@ -8,6 +8,7 @@ import (
 	"reflect"
 	"regexp"
 	"strconv"
+	"strings"
 
 	"github.com/xelaj/mtproto/internal/encoding/tl"
 	ts "github.com/xelaj/mtproto/zverif/ref/tlschema"
@@ -128,6 +129,11 @@ func Compare(d *ts.Def, s *ts.Schema, gt reflect.Type, reg Registry, handCodec b
 		if ok, why := KindOK(p.Type, f.Type, s, reg); !ok {
 			rep("field-type", fmt.Sprintf("parameter %d %s:%s is field %s %v: %s", i, p.Name, p.Type, f.Name, f.Type, why))
 		}
+		// the field is known by the parameter's name: two same-typed fields in exchanged order decode and encode
+		// without an error, into each other's place
+		if norm(f.Name) != norm(p.Name) {
+			rep("field-name", fmt.Sprintf("parameter %d is %s:%s in the schema, the struct field at that position is %s", i, p.Name, p.Type, f.Name))
+		}
 		tag := f.Tag.Get("tl")
 		if p.FlagBit < 0 {
 			if tag != "" {
@@ -158,4 +164,8 @@ func Compare(d *ts.Def, s *ts.Schema, gt reflect.Type, reg Registry, handCodec b
 	case fp >= 0 && fg.FlagIndex() != fp:
 		rep("flags-position", fmt.Sprintf("FlagIndex() = %d, flags:# is parameter %d", fg.FlagIndex(), fp))
 	}
+}
+
+func norm(name string) string {
+	return strings.ToLower(strings.ReplaceAll(name, "_", ""))
 }
